@@ -334,6 +334,12 @@ func runCache2(c *Ctx) {
 			continue
 		}
 		r0 := reOrd.ReplaceAllString(t.Term(lp.Exit.Results[0], lp.PS), "")
+		if r0 == "call:(*db.btreeCache).get#0" {
+			// (value, present): returned when the cache says it is there — and what is there was stored by the
+			// obligation above, a page built without error
+			c.Check(lp.Holds("call:(*db.btreeCache).get#1", token.EQL, "true") && t.Term(lp.Exit.Results[1], lp.PS) == "const:nil", "openPage hit:"+pathSig(lp, 99), lp.Exit.Pos(), "a cache hit is returned only when the cache reports the page present, with a nil error")
+			continue
+		}
 		if r0 != "call:(*db.btreeCache).get" {
 			continue
 		}
